@@ -48,10 +48,14 @@ func (s *bookingStream) RecvMsg(any) error            { return nil }
 var _ grpc.ServerStream = (*bookingStream)(nil)
 
 // periods over integer seconds; -1 = unbounded. Endpoints are all distinct so that "touching" never arises.
-var bookingPeriods = [][2]int64{{100, 200}, {300, 400}, {150, 350}, {-1, 120}, {380, -1}, {500, 600}}
-var bookingWindows = [][2]int64{{110, 190}, {210, 290}, {90, 410}, {-1, 130}, {390, -1}, {450, 700}}
+// {-2, -2} = a booking without a booked period at all: it intersects nothing, not even the window without bounds
+var bookingPeriods = [][2]int64{{100, 200}, {300, 400}, {150, 350}, {-1, 120}, {380, -1}, {500, 600}, {-2, -2}}
+var bookingWindows = [][2]int64{{110, 190}, {210, 290}, {90, 410}, {-1, 130}, {390, -1}, {450, 700}, {-1, -1}}
 
 func mkPeriod(p [2]int64) *timepb.Period {
+	if p[0] == -2 {
+		return nil
+	}
 	out := &timepb.Period{}
 	if p[0] >= 0 {
 		out.StartTime = &timestamppb.Timestamp{Seconds: p[0]}
@@ -63,6 +67,9 @@ func mkPeriod(p [2]int64) *timepb.Period {
 }
 
 func overlaps(a, b [2]int64) bool {
+	if a[0] == -2 || b[0] == -2 {
+		return false
+	}
 	lo := func(x int64) int64 {
 		if x < 0 {
 			return -1 << 60
@@ -139,7 +146,11 @@ func inclBookingRun(w *World) {
 					cur[r.BookingId] = o.p
 					task.Note("create %s %v", r.BookingId, o.p)
 				} else {
-					_, err := srv.UpdateBooking(ctx, &traits.UpdateBookingRequest{Booking: &traits.Booking{Id: o.id, Booked: mkPeriod(o.p)}, UpdateMask: &fieldmaskpb.FieldMask{Paths: []string{"booked.start_time", "booked.end_time"}}})
+					mask := []string{"booked.start_time", "booked.end_time"}
+					if o.p[0] == -2 {
+						mask = []string{"booked"} // clears the period
+					}
+					_, err := srv.UpdateBooking(ctx, &traits.UpdateBookingRequest{Booking: &traits.Booking{Id: o.id, Booked: mkPeriod(o.p)}, UpdateMask: &fieldmaskpb.FieldMask{Paths: mask}})
 					if err != nil {
 						w.Violate("booking-rpc", fmt.Sprintf("UpdateBooking failed: %v", err), nil)
 						ok = false
